@@ -97,9 +97,37 @@ class Ticket:
                 for a, b in ((f[1], f[2]), (f[2], f[1])):
                     if a[0] == "atomic" and a[1] == "load":
                         role, adt = self.role_of(a[2])
-                        if role == "serving" and adt == self.adt:
+                        if role == "serving" and adt == self.adt and self._still_held(ctx, a):
                             return (a, b)
         return None
+
+    def _still_held(self, ctx, load):
+        """An admission observed by a callee (the fact reached this body through the callee's return value) opens a held
+        region here only if the callee hands the ticket to its caller; a callee that used and released the ticket itself
+        returns ordinary data."""
+        site = load[4] if len(load) > 4 else ()
+        pre = ctx.site
+        if tuple(site[:len(pre)]) != tuple(pre):
+            return True
+        rel = site[len(pre):]
+        if len(rel) < 2 or rel[0][0] != ctx.body.def_ or not isinstance(rel[0][1], int):
+            return True
+        c = ctx.body.callee(rel[0][1])
+        if c is None or c.indirect:
+            return True
+        F = self.env.F
+        d = F.resolve_callee(c, ctx.self_adt, self.env.ev.bind(ctx))
+        if d is None or d not in F.bodies:
+            return True
+        cb = F.bodies[d]
+        csa = F.impl_self_adt(cb) or ctx.self_adt
+        if (F.impl_self_adt(cb) or "").endswith("::AtomicCounter"):
+            return True  # the load itself, through the counter wrapper
+        key = ("stillheld", d, csa)
+        if key not in self._held:
+            self._held[key] = None  # (recursion guard: undecided counts as not handing over)
+            self._held[key] = any(okk and hands for (okk, _g, _w, hands) in self.handover_sites(cb, csa).values())
+        return bool(self._held[key])
 
     def admitting_call(self, pctx, recv):
         """does the Option-valued term recv come from a callee whose every `Some` is built under an admission?"""
@@ -114,6 +142,78 @@ class Ticket:
                         if role == "serving" and adt == self.adt and b == p:
                             return a
         return None
+
+    # ---- return values that carry the ticket --------------------------------------------------------
+    def is_admission(self, f):
+        """(load, ticket) if fact f is `ticket == load(now-serving)`"""
+        if f[0] == "eq" and len(f) == 3:
+            for a, b in ((f[1], f[2]), (f[2], f[1])):
+                if a[0] == "atomic" and a[1] == "load":
+                    role, adt = self.role_of(a[2])
+                    if role == "serving" and adt == self.adt:
+                        return (a, b)
+        return None
+
+    def is_gate(self, f, val):
+        if f[0] == "flag" and f[2] is val:
+            role, adt = self.role_of(f[1])
+            return role == "done" and adt == self.adt
+        return False
+
+    def ret_sites(self, b, sa):
+        """{block: [(class, facts)]} for the definition sites of the return value of b (see guards.site_cases)"""
+        key = ("retsites", b.def_, sa)
+        if key not in self._held:
+            from guards import site_cases
+            ctx = self.env.ctx(b, sa, self.world)
+            self._held[key] = site_cases(self.env.ev, ctx, 0, True) or {}
+        return self._held[key]
+
+    def handover_sites(self, b, sa):
+        """Definition sites of the return value under an admission, judged: {block: (ok, gated, why, hands)}.
+        A site hands the ticket to the caller soundly when, for every class of value it can produce (Some/None, true/false)
+        either the end flag is known to be set (nobody is admitted, nothing to release) or *every* site producing that
+        class does so under the admission: the caller can then tell from the value that it holds the ticket."""
+        from guards import class_facts
+        rt = b.locals[0]["ty"]["s"].replace("core::", "std::")
+        if rt == "bool":
+            classes = (True, False)
+        elif rt.startswith("std::option::Option<"):
+            classes = ("Some", "None")
+        else:
+            return {}
+        sites = {bb: [c for c in cs if c[0] in classes and type(c[0]) is type(classes[0])]
+                 for bb, cs in self.ret_sites(b, sa).items()}
+        allc = [c for bb in sorted(sites) for c in sites[bb]]
+        out = {}
+        for bb, cases in sites.items():
+            if not any(self.is_admission(f) for (K, fs, v) in cases for f in fs):
+                continue
+            ok, gated, why, hands = True, True, "", False
+            for (K, fs, v) in cases:
+                adm = [self.is_admission(f) for f in fs if self.is_admission(f)]
+                if not adm:
+                    ok = False
+                    why = "a value of class %s is produced without the admission" % (K,)
+                    continue
+                if any(self.is_gate(f, True) for f in fs):
+                    continue  # end flag set: left without the ticket
+                if K == "Some" and not (v is not None and v[0] == "agg" and v[2] and
+                                        any(unref(v[2][0]) == unref(a[1]) for a in adm)):
+                    ok = False
+                    why = "the Some returned under the admission does not carry the ticket"
+                    continue
+                cf = class_facts(allc, K)
+                if not any(self.is_admission(f) for f in cf):
+                    ok = False
+                    why = "the value returned here (class %s) is also returned by paths that were not admitted: the " \
+                          "caller cannot tell that it holds the ticket" % (K,)
+                else:
+                    hands = True
+                    if not any(self.is_gate(f, False) for f in cf):
+                        gated = False
+            out[bb] = (ok, gated, why, hands)
+        return out
 
     def held(self, b, sa, bb, trail=()):
         """Is block bb of body b inside a held region? returns (bool, why, admission load term or None)"""
@@ -306,30 +406,23 @@ def rule_gate(env, shared):
                               "a ticket holder is admitted to the wrapped iterator on `ticket == now-serving` alone; "
                               "the end flag is not consulted on this path, so after skip_to_end (which moves the "
                               "position counter to its maximum) a wrapped-around ticket is served again"))
-        # (b) Some(ticket) returned under an admission (region handed to the caller)
-        ev = env.ev
-        t0 = ev.local(ctx, 0)
-        for (bb, si, kind, payload) in b.defs().get(0, []) if not b.is_closure else []:
-            pass
-        for bb in range(len(b.blocks)):
-            if b.blocks[bb]["cleanup"]:
+        # (b) the ticket handed to the caller through the return value (Some(ticket) / true) under an admission
+        if b.is_closure:
+            continue
+        for bb, (okk, gated, why, hands) in sorted(T.handover_sites(b, sa).items()):
+            if not (okk and hands):
+                continue  # not a hand-over: LIVE.c demands the release on this path
+            k = "GATE|%s|admission->return" % env.fname(b)
+            if any(o.key == k and o.status == "viol" for o in out):
                 continue
-            for s in b.blocks[bb]["stmts"]:
-                if s["k"] == "assign" and s["rv"]["k"] == "aggregate" and s["rv"].get("variant_name") == "Some":
-                    if T.admission_fact(ctx, bb) is None:
-                        continue
-                    x = ev.operand(ctx, s["rv"]["ops"][0])
-                    adm = T.admission_fact(ctx, bb)
-                    if unref(adm[1]) != unref(x):
-                        continue
-                    k = "GATE|%s|admission->Some(ticket)" % env.fname(b)
-                    loc = b.file_line(s["loc"])
-                    if done_false(block_facts(ev, ctx, bb)):
-                        out.append(Ob("GATE", k, "ok", loc, "ticket is handed out only while the end flag is false", True))
-                    else:
-                        out.append(Ob("GATE", k, "viol", loc,
-                                      "the ticket is handed to the caller on `ticket == now-serving` alone; the end flag "
-                                      "is not consulted, so after skip_to_end a wrapped-around ticket is served again"))
+            loc = b.file_line(b.term(bb)["loc"])
+            if gated:
+                out.append(Ob("GATE", k, "ok", loc, "ticket is handed out only while the end flag is false", True))
+            else:
+                out = [o for o in out if o.key != k]
+                out.append(Ob("GATE", k, "viol", loc,
+                              "the ticket is handed to the caller on `ticket == now-serving` alone; the end flag "
+                              "is not consulted, so after skip_to_end a wrapped-around ticket is served again"))
     return out
 
 
